@@ -43,6 +43,9 @@ theorem val_loaded {s : State} {r : Ref} (a : EInvA s r) (b : EInvB s r) :
     · rw [v.2.2.2.2.1 hst]; simp
     · exact absurd hst hnc
 
+theorem markStarted_started (s : State) (th : Thread) : (markStarted s th).started = true := by
+  unfold markStarted; split <;> simp_all
+
 theorem markStarted_of_started {s : State} {th : Thread} (h : th.started = true) : markStarted s th = th := by
   unfold markStarted; simp [h]
 
@@ -50,9 +53,10 @@ set_option hygiene false in
 /-- facts about the stepping thread from all layers -/
 local macro "thr_facts" : tactic => `(tactic|
   (obtain ⟨hb1, hb2, hb3, hb4, hb5⟩ := hB.thr t ht
-   obtain ⟨hc1, hc2, hc3, hc4⟩ := hC.thr t ht
+   obtain ⟨hc1, hc2, hc3, hc4, hc5⟩ := hC.thr t ht
    simp only [loaded_iff] at hb2 hb3
-   have hst := stale_started hC ht))
+   have hst := stale_started hC ht
+   have hmst := markStarted_started s (s.thr t)))
 
 set_option hygiene false in
 local macro "open_step" : tactic => `(tactic|
@@ -70,6 +74,16 @@ local macro "open_step" : tactic => `(tactic|
    thr_facts
    rw [hpc] at hTt
    simp only at hTt
+   have hcr := hD.thr t ht
+   unfold CloseRun at hcr
+   rw [hpc] at hcr
+   simp only at hcr
+   first
+   | (have hms : markStarted s (s.thr t) = s.thr t := by
+        rcases hc5 with h | h
+        · exact markStarted_of_started h
+        · exfalso; rw [hpc] at h; cases hop : (s.thr t).op <;> rw [hop] at h <;> simp [firstPc] at h)
+   | skip
    unfold stepCore at h
    rw [markStarted_pc, hpc] at h
    simp only [markStarted_op, markStarted_todo] at h))
@@ -95,6 +109,7 @@ local macro "with_after" hh:ident tac:tactic : tactic => `(tactic|
    obtain ⟨op', pc', todo', ret', sta', stale'⟩ := th'
    obtain ⟨hop', hst', hsd', hsub, hpc'⟩ := hAf
    simp only [markStarted_op, markStarted_todo] at hop' hst' hsd' hsub hpc' hcd
+   try simp only [State.setE, State.setI, State.setThr, State.goto] at hcd
    rcases hpc' with ⟨hp, hx⟩ | ⟨hp, hx⟩ | ⟨hp, hx⟩ | ⟨r2, hm2, hp, hx⟩ | ⟨r2, hm2, hp, hx⟩ <;> subst hp <;> $tac))
 
 set_option hygiene false in
@@ -120,4 +135,27 @@ local macro "frameB" r0:term "," i0:term : tactic => `(tactic|
    case hLoaded => intro hr; first | vac | ((try simp at hr); simp <;> grind)
    case hPendKeep => intro hr hp hldr; first | vac | ((try simp at hr); simp at hp hldr ⊢ <;> grind)
    case hTB => constructor <;> simp <;> grind))
+
+set_option hygiene false in
+local macro "frameC" r0:term "," i0:term : tactic => `(tactic|
+  (apply invC_frame (t := t) $r0 $i0 hA hC
+   case hnThr => simp
+   case hnInst => simp
+   case hthr => intro t' ht'; simp [ht']
+   case hheap => intro r hr; simp [hr]
+   case hinst => intro i hi; simp [hi]
+   case hClosedKeep => intro hr hcls; first | vac | ((try simp at hr); simp at hcls ⊢ <;> grind)
+   case hValFresh => intro hr; first | vac | ((try simp at hr); intro i hv; simp at hv ⊢ <;> grind)
+   case hTC => constructor <;> simp [markStarted_started] <;> grind))
+
+
+set_option hygiene false in
+local macro "frameD" r0:term "," i0:term : tactic => `(tactic|
+  (apply invD_frame (t := t) hD
+   case hnThr => simp
+   case hthr => intro t' ht'; simp [ht']
+   case hTD => intro hop; simp at hop; unfold CloseRun; simp <;> grind
+   case hD3 => intro hc0 r hr hm; simp at hr hm ⊢ <;> grind
+   case hD4 => intro hcd; simp at hcd ⊢ <;> grind
+   case hD5 => intro hc0; simp [hc0] <;> grind))
 
